@@ -35,6 +35,9 @@ type ChainMonitor struct {
 	// an unaligned production tick happened: outside the quantifier of C01/C04 (the engine,
 	// C20, only ever delivers aligned ticks)
 	Unaligned bool
+	// AfterSync: the chain is only ever changed by sync rounds against misbehaving neighbors (faults
+	// suite): a chain that breaks a chain rule afterwards is something a faulty neighbor got in (C13)
+	AfterSync bool
 }
 
 func NewChainMonitor(set *Settings, out *Out, caseId string) *ChainMonitor {
@@ -52,6 +55,12 @@ func (m *ChainMonitor) hit(prop, key, what string) {
 	m.hits[k] = true
 	if m.out != nil {
 		m.out.Violation(prop, m.caseId, key+"\t"+what)
+		if m.AfterSync && strings.HasPrefix(what, "op ") && strings.Contains(what[:indexOrLen(what, ':')], "(update)") {
+			switch key {
+			case "double-spend", "unknown-output", "tx-bound", "reward-bound", "sig", "owner", "link", "spacing", "reward-count", "window", "yield-unregistered", "two-yielding":
+				m.out.Violation("C13", m.caseId, "invalid-chain-kept:"+prop+"."+key+"\tafter a sync round with misbehaving neighbors the node holds a chain that is not valid: "+what)
+			}
+		}
 	}
 }
 
